@@ -33,10 +33,24 @@
    oracle of harness/src/c16.rs (cut/extension geometry in f64, lengths start
    at 0 / monotone within 1e-5 / finite, osu!-mode total unchanged).
 
-   Deviations of the code from the property text, both recorded as known
-   findings with witnesses below: D9 (case (i) with natural <> L) and D11. *)
+   The distance is the requested length (main statement, after the repair of
+   D9): calculate_length compares the requested length with the calculated one
+   EXACTLY -- (calculated_len - len).abs() > 0.0 -- so for every L > 0 (+inf
+   included) and a calculated length that is not NaN the last cumulative length
+   IS L, the very same value, with NO epsilon window: either L is the natural
+   length itself (nothing changes, and the natural length = L) or the curve is
+   cut / extended.  The only exceptions are the structural ones of the property
+   text: fewer than two vertices, and "last two points equal and L longer".
+   (C16_distance_is_L, C16_distance_is_L_zero_seed, C16_curve_distance_is_L.)
+
+   Deviation of the code from the property text still recorded as a known
+   finding with a witness below: D11.  D9 (a requested length within
+   f64::EPSILON of the natural one but different from it left the natural
+   length as the distance) is repaired; the formerly failing inputs are
+   Examples below and now give dist = L. *)
 From Coq Require Import Reals.
-From RM Require Import Model.ControlPoints Model.Curve Proofs.BezierRefine Proofs.LengthFacts Proofs.SimplifyExact.
+From RM Require Import Model.ControlPoints Model.Curve Proofs.BezierRefine Proofs.LengthFacts Proofs.SimplifyExact
+  Proofs.LengthMono Proofs.LengthExact.
 Open Scope Z_scope.
 
 (* T16a: the case analysis.  [natural path opt] = 0, then the running sums of
@@ -48,8 +62,9 @@ Theorem C16_calculate_length_cases :
   match e with
   | None => calculate_length path None opt = Done (path, nat)
   | Some L =>
-      (* (i) within f64::EPSILON of the natural length: nothing happens *)
-      if near_natural calc L then calculate_length path e opt = Done (path, nat)
+      (* (i) the filter rejects L -- |calc - L| > 0.0 is false: L is the natural length
+         itself or the difference is NaN (see the C16_filter theorems) -- nothing happens *)
+      if keeps_natural calc L then calculate_length path e opt = Done (path, nat)
       (* (ii) last two points equal and L beyond: natural lengths plus one repeated entry *)
       else if last_two_equal path && D.gt L calc then calculate_length path e opt = Done (path, nat ++ [calc])
       (* (iii) at most one vertex *)
@@ -76,11 +91,12 @@ Theorem C16_no_requested_length :
 Proof. exact no_requested_length. Qed.
 Print Assumptions C16_no_requested_length.
 
-(* (iv) for L > 0: the distance is exactly L -- the very same value *)
+(* (iv) for L > 0 that the filter lets through: the distance is exactly L -- the
+   very same value -- and the shape of the new path *)
 Theorem C16_distance_is_requested_length :
   forall path L opt path' lens,
   D.lt D.zero L = true ->
-  near_natural (natural_len path opt) L = false ->
+  keeps_natural (natural_len path opt) L = false ->
   (last_two_equal path && D.gt L (natural_len path opt))%bool = false ->
   (2 <= length path)%nat ->
   calculate_length path (Some L) opt = Done (path', lens) ->
@@ -106,19 +122,120 @@ Print Assumptions C16_lengths_start_at_zero.
 Theorem C16_sizes :
   forall path e opt path' lens, calculate_length path e opt = Done (path', lens) -> path <> [] ->
   length lens = length path' \/
-  (exists L, e = Some L /\ near_natural (natural_len path opt) L = false /\
+  (exists L, e = Some L /\ keeps_natural (natural_len path opt) L = false /\
              last_two_equal path = true /\ D.gt L (natural_len path opt) = true /\
              path' = path /\ lens = natural path opt ++ [natural_len path opt]).
 Proof. exact calculate_length_sizes. Qed.
 Print Assumptions C16_sizes.
 
-(* D9 as a theorem: inside the epsilon window the natural curve is returned,
-   whether or not L equals the natural length *)
-Theorem C16_near_natural_keeps_natural :
-  forall path L opt, near_natural (natural_len path opt) L = true ->
+(* (i) the filter: keeps_natural calc L = !((calc - L).abs() > 0.0) *)
+Theorem C16_filter_is_exact_comparison :
+  forall calc L, keeps_natural calc L = negb (D.gt (D.abs (D.sub calc L)) D.zero).
+Proof. reflexivity. Qed.
+Print Assumptions C16_filter_is_exact_comparison.
+
+Theorem C16_filtered_length_keeps_natural :
+  forall path L opt, keeps_natural (natural_len path opt) L = true ->
   calculate_length path (Some L) opt = Done (path, natural path opt).
-Proof. exact near_natural_keeps_natural. Qed.
-Print Assumptions C16_near_natural_keeps_natural.
+Proof. exact unchanged_length_keeps_natural. Qed.
+Print Assumptions C16_filtered_length_keeps_natural.
+
+(* the filter rejects L only when the difference is NaN (a NaN operand, or two
+   infinities of the same sign) or when both are finite and THE SAME NUMBER: no
+   window around the natural length is left *)
+Theorem C16_filter_rejects_only_equal_or_nan :
+  forall calc L, keeps_natural calc L = true ->
+  D.is_nan (D.sub calc L) = true \/
+  (Flocq.IEEE754.BinarySingleNaN.is_finite calc = true /\
+   Flocq.IEEE754.BinarySingleNaN.is_finite L = true /\
+   Flocq.IEEE754.BinarySingleNaN.B2R calc = Flocq.IEEE754.BinarySingleNaN.B2R L).
+Proof. exact keeps_natural_cases. Qed.
+Print Assumptions C16_filter_rejects_only_equal_or_nan.
+
+(* for L > 0 and a calculated length that is not NaN: only when they are the same value *)
+Theorem C16_filter_rejects_positive_only_if_same_value :
+  forall calc L, D.lt D.zero L = true -> D.is_nan calc = false ->
+  keeps_natural calc L = true -> calc = L.
+Proof. exact keeps_natural_pos_eq. Qed.
+Print Assumptions C16_filter_rejects_positive_only_if_same_value.
+
+(* conversely, requesting the natural length itself, or NaN, changes nothing *)
+Theorem C16_requesting_the_natural_length :
+  forall path opt, D.is_nan (natural_len path opt) = false ->
+  calculate_length path (Some (natural_len path opt)) opt = Done (path, natural path opt).
+Proof. exact request_natural_length. Qed.
+Print Assumptions C16_requesting_the_natural_length.
+
+Theorem C16_requesting_nan :
+  forall path L opt, D.is_nan L = true ->
+  calculate_length path (Some L) opt = Done (path, natural path opt).
+Proof. exact request_nan. Qed.
+Print Assumptions C16_requesting_nan.
+
+(* MAIN STATEMENT.  Requested length L > 0 (finite or +inf; "D.lt D.zero L"
+   excludes NaN), calculated length not NaN, at least two vertices, not the
+   "last two points equal and L longer" exception: the distance of the curve
+   IS L (Leibniz equality on the float: the same bits), with no epsilon
+   exception.  Either L is the natural length and the curve is the natural
+   one, or the filter let L through and the curve is cut / extended *)
+Theorem C16_distance_is_L :
+  forall path L opt path' lens,
+  D.lt D.zero L = true ->
+  D.is_nan (natural_len path opt) = false ->
+  (last_two_equal path && D.gt L (natural_len path opt))%bool = false ->
+  (2 <= length path)%nat ->
+  calculate_length path (Some L) opt = Done (path', lens) ->
+  dist lens = L /\ length lens = length path' /\
+  ((natural_len path opt = L /\ path' = path /\ lens = natural path opt) \/
+   (keeps_natural (natural_len path opt) L = false /\
+    exists k p',
+      (1 <= k < length path)%nat /\
+      path' = firstn k path ++ [p'] /\
+      lens = firstn k (natural path opt) ++ [L] /\
+      adjust_end path (natural path opt) k L = Some p' /\
+      (exists v, nth_error (natural path opt) (pred k) = Some v /\ D.lt v L = true) /\
+      (forall j v, (k <= j < pred (length path))%nat -> nth_error (natural path opt) j = Some v -> D.lt v L = false))).
+Proof. exact calculate_length_dist_exact. Qed.
+Print Assumptions C16_distance_is_L.
+
+(* finite vertices and a zero seed (every path but an osu!-mode Catmull one):
+   the calculated length is never NaN, the hypothesis disappears *)
+Theorem C16_distance_is_L_zero_seed :
+  forall path L path' lens,
+  Forall fin_pos path ->
+  D.lt D.zero L = true ->
+  (last_two_equal path && D.gt L (natural_len path D.zero))%bool = false ->
+  (2 <= length path)%nat ->
+  calculate_length path (Some L) D.zero = Done (path', lens) ->
+  dist lens = L.
+Proof. exact calculate_length_dist_is_L_zero_seed. Qed.
+Print Assumptions C16_distance_is_L_zero_seed.
+
+(* on computed curves *)
+Theorem C16_curve_distance_is_L :
+  forall lm fuel mode pts L c,
+  curve_L1 lm fuel mode pts (Some L) = Done c ->
+  D.lt D.zero L = true ->
+  exists path opt, calculate_path_L1 lm fuel mode pts = Done (path, opt) /\
+    (D.is_nan (natural_len path opt) = false ->
+     (last_two_equal path && D.gt L (natural_len path opt))%bool = false ->
+     (2 <= length path)%nat ->
+     dist (c_lengths c) = L).
+Proof. exact curve_dist_is_requested_length. Qed.
+Print Assumptions C16_curve_distance_is_L.
+
+(* the two exceptions: the distance is the natural length (strictly below L)
+   resp. 0.0 *)
+Theorem C16_exceptions :
+  forall path L opt,
+  keeps_natural (natural_len path opt) L = false ->
+  ((last_two_equal path && D.gt L (natural_len path opt))%bool = true ->
+   exists lens, calculate_length path (Some L) opt = Done (path, lens) /\ dist lens = natural_len path opt /\
+                D.lt (natural_len path opt) L = true) /\
+  ((last_two_equal path && D.gt L (natural_len path opt))%bool = false -> (length path <= 1)%nat ->
+   exists lens, calculate_length path (Some L) opt = Done (path, lens) /\ dist lens = D.zero).
+Proof. exact calculate_length_exceptions. Qed.
+Print Assumptions C16_exceptions.
 
 (* T16c [exact arithmetic]: the osu!-mode Catmull simplification loop is
    written once over abstract operations (Model/Curve.v: simplify_loop_g; the
@@ -175,12 +292,37 @@ Example C16_nonvacuous_extension :
   end = (dump_pos (mkPos (S.of_Z 3) (S.of_Z 19)), [D.bits D.zero; D.bits (D.of_Z 5); D.bits (D.of_Z 20)]).
 Proof. vm_compute. reflexivity. Qed.
 
-(* D9: L = 1 - 2^-53 (0x3FEFFFFFFFFFFFFF), natural length 1: the distance is 1, not L *)
+(* formerly D9 (repaired): B(0,0) (0,1), L = 1 - 2^-53 = 0.9999999999999999
+   (0x3FEFFFFFFFFFFFFF), natural length 1.  The old filter (|1 - L| >= f64::EPSILON)
+   kept the natural curve and the distance was 1; now the distance is L *)
 Definition l_below_one : F64 := D.of_bits 4607182418800017407.
-Example C16_D9_witness :
+Example C16_formerly_D9_one_ulp_below :
+  dist_bits (curve_L1 lm0 bezier_fuel 0 [pt 0 0 (Some BSpline); pt 0 1 None] (Some l_below_one))
+  = 4607182418800017407 /\ D.bits l_below_one = 4607182418800017407 /\ D.bits D.one = 4607182418800017408.
+Proof. vm_compute. repeat split. Qed.
+(* the same with a linear segment, and one ulp ABOVE the natural length (extension) *)
+Example C16_formerly_D9_linear_both_sides :
   dist_bits (curve_L1 lm0 bezier_fuel 0 [pt 0 0 (Some Linear); pt 0 1 None] (Some l_below_one))
-  = D.bits D.one /\ D.bits D.one <> D.bits l_below_one.
-Proof. vm_compute. split; [reflexivity|discriminate]. Qed.
+  = 4607182418800017407 /\
+  dist_bits (curve_L1 lm0 bezier_fuel 0 [pt 0 0 (Some Linear); pt 0 1 None] (Some (D.of_bits 4607182418800017409)))
+  = 4607182418800017409.
+Proof. vm_compute. split; reflexivity. Qed.
+(* the other recorded input: L(0,0) (1e-20,0), L = 1e-17: natural length 9.999973e-21,
+   |natural - L| far below 2^-52; the distance is now 1e-17 *)
+Example C16_formerly_D9_tiny :
+  dist_bits (curve_L1 lm0 bezier_fuel 0
+               [mkPCP (mkPos S.zero S.zero) (Some Linear); mkPCP (mkPos (S.of_decimal false 1 (-20)) S.zero) None]
+               (Some (D.of_decimal false 1 (-17))))
+  = D.bits (D.of_decimal false 1 (-17)).
+Proof. vm_compute. reflexivity. Qed.
+(* requesting exactly the natural length keeps the natural curve (2 vertices, lengths 0, 1) *)
+Example C16_request_natural_example :
+  match curve_L1 lm0 bezier_fuel 0 [pt 0 0 (Some Linear); pt 0 1 None] (Some D.one) with
+  | Done c => (flat_map dump_pos (c_path c), map D.bits (c_lengths c))
+  | _ => ([], [])
+  end = (dump_pos (mkPos (S.of_Z 0) (S.of_Z 0)) ++ dump_pos (mkPos (S.of_Z 0) (S.of_Z 1)),
+         [D.bits D.zero; D.bits D.one]).
+Proof. vm_compute. reflexivity. Qed.
 
 (* Narrowing of "finite coordinates" in the IEEE statements (recorded, not a
    finding): |coordinate| <= 2^60 (the squared length overflows beyond) and no
